@@ -61,11 +61,15 @@ class GotranPythonCodePrinter(PythonCodePrinter):
             lhs = super()._print(expr.args[0][0].lhs)
             result.append(f"{super()._print(lhs)} = ")
             all_lsh_equal = True
-            for arg in expr.args:
+            values = [super()._print(arg[0].rhs) for arg in expr.args]
+            if all(v.lstrip("-").isdigit() for v in values):
+                # (integer values only: see below)
+                values = [f"{v}.0" for v in values]
+            for arg, value in zip(expr.args, values):
                 result.append("numpy.where(")
                 result.append(f"{super()._print(arg[1])}")
                 result.append(", ")
-                result.append(f"{super()._print(arg[0].rhs)}")
+                result.append(value)
                 result.append(", ")
                 all_lsh_equal = all_lsh_equal and super()._print(arg[0].lhs) == lhs
 
@@ -73,7 +77,7 @@ class GotranPythonCodePrinter(PythonCodePrinter):
 
             if super()._print(arg[1]) == "True":
                 result = result[:-6]
-                result.append(f", {super()._print(arg[0].rhs)}")
+                result.append(f", {value}")
             else:
                 raise ValueError("Last condition in Piecewise must be True")
 
